@@ -17,6 +17,8 @@ CHECKS = {
          'bounded exhaustive enumeration of (grammar, options, engine, input) against reference derivations + a shaping function written from the documentation'),
  'C02': ('model_checking', '4 C02', 'For every reduced grammar of the bounded BNF families x rule priorities: GrammarError iff the reference automaton (canonical LR(1) merged by core) has an unresolved reduce/reduce conflict; every state of the real parse table is compared row by row with the reference; the real pushdown automaton is walked breadth-first over all token strings up to the bound (choices/accepts/feed/feed_eof vs reference simulator, acceptance vs an independent CFG recogniser); parse() under both lexers agrees.',
          'explicit-state search of the real LALR pushdown automaton against a reference automaton + exhaustive table comparison'),
+ 'C08': ('exploration', '4 C08', 'Every productive grammar of the bounded families (single-character terminals, with/without %ignore) x 6 parser/lexer pairs x every rejected input (incl. unlexable characters): exception class, position (first token/character after the longest viable prefix, computed by an independent prefix-viability fix-point; reference LALR automaton for conflict grammars), $END/UnexpectedEOF conventions and the continuation sets in the stated directions.',
+         'bounded exhaustive enumeration of rejected (grammar, engine, input) triples against a prefix-viability reference'),
 }
 NOT_YET = {}
 def main():
